@@ -5,7 +5,8 @@
      3  a redundant write: a file outside the batch or whose value was already the target was
         written, or a write did not change the content
      4  the final files are not the start files with the writes applied (unobserved write)
-     5  a written content is not acceptable for the file (literal "-1" in cpu.max, unparsable) *)
+   ([legal], "every written content is acceptable for its file", is NOT part of the property's
+   text and not a clause of [prop_code]; it is kept as a statement about the model only.) *)
 From Coq Require Import List ZArith Bool.
 From Verif Require Import C12.Model.
 Import ListNotations.
@@ -119,7 +120,7 @@ Definition no_redundantb (e : env) (fs : fmap) (us : list updater) (ws : list wr
 Definition same_on (ks : list Z) (a b : fmap) : Prop := forall k, In k ks -> get a k = get b k.
 Definition same_onb (ks : list Z) (a b : fmap) : bool := forallb (fun k => get a k =? get b k) ks.
 
-(* 5: every written content is one the kernel accepts for that file *)
+(* not a clause of the property: every written content is one the kernel accepts for that file *)
 Definition legal_write (e : env) (w : write) : bool := vok (kindof e (fst w)) (snd w).
 Definition legal (e : env) (ws : list write) : Prop := forall w, In w ws -> legal_write e w = true.
 Definition legalb (e : env) (ws : list write) : bool := forallb (legal_write e) ws.
@@ -130,15 +131,13 @@ Definition C12_batch (e : env) (fs : fmap) (levels : list (list updater)) (ws : 
   every_prefix_valid e fs ws
   /\ final_ok fin (concat levels)
   /\ same_on (files_of e) fin (apply_writes e ws fs)
-  /\ no_redundant e fs (concat levels) ws
-  /\ legal e ws.
+  /\ no_redundant e fs (concat levels) ws.
 
 Definition prop_code (e : env) (fs : fmap) (levels : list (list updater)) (ws : list write) (fin : fmap) : Z :=
   if negb (prefixes_validb e fs ws) then 1
   else if negb (final_okb fin (concat levels)) then 2
   else if negb (same_onb (files_of e) fin (apply_writes e ws fs)) then 4
   else if negb (no_redundantb e fs (concat levels) ws) then 3
-  else if negb (legalb e ws) then 5
   else 0.
 
 (* ---------- histories: the observable of a batch is (writes, final files) ---------- *)
